@@ -193,6 +193,29 @@ def analyse_memo(R, f, spec):
                 f'{sorted(varying - set(spec.get("cursors", ())))}'
                 + (f'; cursor {spec["cursors"]} is recomputed from the '
                    'node level' if spec.get('cursors') else ''))
+    # the cursor skips exactly the levels *above* the node: the comparison
+    # of the cursor's level with the node level is strict
+    for cur in spec.get('cursors', ()):
+        for wl in au.walk_no_defs(fn):
+            if not isinstance(wl, ast.While):
+                continue
+            for t in ast.walk(wl):
+                if isinstance(t, ast.Compare) and len(t.ops) == 1 and \
+                        isinstance(t.left, ast.Subscript) and au.is_name(
+                            t.left.slice, cur) and isinstance(
+                                t.comparators[0], ast.Name):
+                    lvl = t.comparators[0].id
+                    if isinstance(t.ops[0], ast.Lt):
+                        R.holds('R-MEMO', q, f'cursor `{cur}` skips the '
+                                f'levels strictly above the node '
+                                f'(`{au.short(t)}`)')
+                    elif isinstance(t.ops[0], ast.LtE):
+                        R.violation(
+                            'R-MEMO', 'cursor', q, f'{cur}:<=',
+                            f'`{au.short(t)}` also skips the level of the '
+                            f'node itself (`{lvl}`): a variable at exactly '
+                            'this level is treated as absent',
+                            unit=f.unit.rel, line=t.lineno)
     # cursor parameters must really be re-derived before use: the function
     # advances them in a loop against the node level
     for cur in spec.get('cursors', ()):
